@@ -26,7 +26,11 @@ func c11Once(t *testing.T, s *sim.Scn, k int, o *sim.Outcome) (fired bool) {
 		start := time.Now()
 		w := sim.NewWorld(t, "c11", 1)
 		defer w.Close()
-		n := w.AddNode(sim.NodeCfg{Name: "seq", Aggregator: true, QueueSize: int(max64(1, s.Cfg["queue"]))})
+		// a pending-block limit (cfg maxpending) makes production decline while that many blocks wait for the DA layer;
+		// what was taken from the mempool must wait with it, not vanish
+		maxPending := uint64(s.Cfg["maxpending"])
+		n := w.AddNode(sim.NodeCfg{Name: "seq", Aggregator: true, QueueSize: int(max64(1, s.Cfg["queue"])), MaxPending: maxPending})
+		w.DA.AutoAdvance = true
 		r := newAggRun(w, n, o)
 		if !r.start(-1, "C11") {
 			return
@@ -77,6 +81,10 @@ func c11Once(t *testing.T, s *sim.Scn, k int, o *sim.Outcome) (fired bool) {
 		idle := 0
 		for j := 0; j < rounds && idle < 3; j++ {
 			time.Sleep(time.Second)
+			if maxPending > 0 {
+				r.exec(sim.Op{K: "subh", A: 0}, -1)
+				r.exec(sim.Op{K: "subd", A: 0}, -1)
+			}
 			hb := n.Height()
 			relBefore := len(n.SeqLog.Released)
 			r.exec(sim.Op{K: "reap"}, -1)
@@ -226,6 +234,9 @@ func c11Gen(r *rand.Rand, tier string) *sim.Scn {
 	if r.IntN(4) == 0 {
 		s.Cfg["maxbytes"] = []int64{1, 12, 30}[r.IntN(3)]
 	}
+	if r.IntN(3) == 0 {
+		s.Cfg["maxpending"] = []int64{1, 2, 3}[r.IntN(3)]
+	}
 	n := 4 + r.IntN(20)
 	if tier == "thorough" {
 		n = 4 + r.IntN(50)
@@ -246,6 +257,9 @@ func c11Gen(r *rand.Rand, tier string) *sim.Scn {
 		case x < 96:
 			s.Ops = append(s.Ops, sim.Op{K: "tx", A: r.Int64N(4)}, sim.Op{K: "reap"})
 			cands = append(cands, len(s.Ops)-1)
+		case x < 97 && s.Cfg["maxpending"] > 0:
+			// only one of the two submission loops gets its turn: headers and data fall behind differently
+			s.Ops = append(s.Ops, sim.Op{K: []string{"subh", "subh", "subd"}[r.IntN(3)], A: 0})
 		case x < 98:
 			s.Ops = append(s.Ops, sim.Op{K: "stop"})
 		default:
